@@ -7,7 +7,12 @@ package main
 // collector that stops at un-annotated parents misses it); an annotated parent
 // with an annotated nested message; an un-annotated bystander.
 
-import "fmt"
+import (
+	"fmt"
+	"go/ast"
+	"go/types"
+	"strings"
+)
 
 func enumConst(label string, n int64) Val { return VInt{N: n, Label: label} }
 
@@ -145,6 +150,92 @@ func corpusDumpMain(args []string) {
 					}
 				}
 			}
+		}
+	}
+}
+
+// flattenedArmsSetOneof: on the corpus file with flattened discriminated oneofs, every `case "<value>":` arm of the
+// emitted decoder's discriminator switch sets the oneof at the top level of the arm (not under a condition on
+// the presence of variant keys): the discriminator alone selects a variant, also one whose fields are all
+// default or that has no fields.
+func flattenedArmsSetOneof(c *Ctx, rid string) {
+	r := c.R
+	for _, pkg := range []string{pkgHTTP, pkgClient} {
+		for _, cf := range corpusFor("_oneof_discriminator.pb.go") {
+			units, pos, prob := c.runUnitConcrete(pkg, "_oneof_discriminator.pb.go", cf.File)
+			name := pkgShort(pkg) + " *_oneof_discriminator.pb.go on " + cf.Name
+			if prob != "" || len(units) == 0 {
+				r.Undec(rid, name, pos, "unit does not evaluate on the corpus file: "+prob)
+				continue
+			}
+			fset, f, err := ParseUnit(units[0])
+			if err != nil {
+				r.Undec(rid, name, pos, "reconstructed unit does not parse: "+err.Error())
+				continue
+			}
+			_ = fset
+			arms, bad := 0, []string{}
+			for _, d := range f.Decls {
+				fd, ok := d.(*ast.FuncDecl)
+				if !ok || fd.Body == nil || fd.Name.Name != "UnmarshalJSON" {
+					continue
+				}
+				ast.Inspect(fd.Body, func(n ast.Node) bool {
+					sw, ok := n.(*ast.SwitchStmt)
+					if !ok || sw.Tag == nil || types.ExprString(sw.Tag) != "disc" {
+						return true
+					}
+					for _, st := range sw.Body.List {
+						cc := st.(*ast.CaseClause)
+						if len(cc.List) == 0 {
+							continue
+						}
+						// message variants: the arm decodes something (it is not an empty arm for a scalar variant)
+						if len(cc.Body) == 0 {
+							continue
+						}
+						arms++
+						set := false
+						for _, s2 := range cc.Body {
+							if as, ok := s2.(*ast.AssignStmt); ok {
+								for _, l := range as.Lhs {
+									if strings.HasPrefix(types.ExprString(l), "x.") {
+										set = true
+									}
+								}
+							}
+							// the non-flattened arm reads its variant under `if variantRaw, exists := raw[…]; exists {`: the
+							// variant is on the wire under its own key there, absence of the key means absence of the variant
+							if ifs, ok := s2.(*ast.IfStmt); ok && ifs.Init != nil {
+								ia, ok := ifs.Init.(*ast.AssignStmt)
+								if ok && len(ia.Lhs) == 2 && len(ia.Rhs) == 1 && types.ExprString(ifs.Cond) == types.ExprString(ia.Lhs[1]) {
+									_, ok = ia.Rhs[0].(*ast.IndexExpr)
+								} else {
+									ok = false
+								}
+								if ok {
+									ast.Inspect(ifs.Body, func(m ast.Node) bool {
+										if as, ok := m.(*ast.AssignStmt); ok {
+											for _, l := range as.Lhs {
+												if strings.HasPrefix(types.ExprString(l), "x.") {
+													set = true
+												}
+											}
+										}
+										return true
+									})
+								}
+							}
+						}
+						if !set {
+							bad = append(bad, fd.Recv.List[0].Type.(*ast.StarExpr).X.(*ast.Ident).Name+" case "+types.ExprString(cc.List[0]))
+						}
+					}
+					return true
+				})
+			}
+			r.Check(len(bad) == 0 && arms > 0, rid, name+": every variant arm of the decoder sets the oneof", pos,
+				fmt.Sprintf("%d arm(s) do not set the oneof unconditionally (%v): a body that carries the discriminator but none of the variant's own keys — which is what the encoder writes for a variant whose fields are all default — decodes to an unset oneof", len(bad), bad))
 		}
 	}
 }
